@@ -1579,6 +1579,23 @@ func c17RunTest(t *testing.T, unit string, userInput bool) {
 			"fault":                   all["fault"],
 			"restart-or-new-job":      group("restart", "createJob", "createJob"),
 		}
+		if e.userInput {
+			// the workload scales out (or replaces a pod) while a job with a user-written template has not evicted yet: the new
+			// replica matches the reservation's owners and consumes it
+			scaleOut := func(t *rapid.T) {
+				if e.dead {
+					return
+				}
+				j, r := pickResv(t, bindable)
+				api := e.getJob(j.name)
+				if j.userTemplate == "" || ownedByOnePod(r) || api == nil || c17JobCond(api, sev1alpha1.PodMigrationJobConditionEviction) != nil {
+					t.Skip("not a template job that still waits to evict")
+				}
+				bind(t, j, r, rapid.Bool().Draw(t, "ready"))
+			}
+			actions["replica-consumes-template-reservation-a"] = scaleOut
+			actions["replica-consumes-template-reservation-b"] = scaleOut
+		}
 		if e.extended {
 			// the scheduler places a not yet scheduled pod of the workload - possibly a job's own target - through a reservation
 			schedViaResv = func(t *rapid.T, j *c17Job) {
